@@ -102,6 +102,30 @@ theorem element_ids_iff (ts : List Token) (hinj : HashInj C ts) (hfit : Fits C g
     obtain ⟨e, he, hc⟩ := (elements_iff ts hinj hfit t).mpr ht
     exact ⟨e, he, by rw [id_of_core C hc]; exact hid⟩
 
+/-- … and nothing is lost: while the waiting area is not exceeded, the waiting tokens are exactly the offered tokens
+    that are signed by the tree key but not (yet) connected to genesis -/
+theorem waiting_iff (ts : List Token) (hinj : HashInj C ts) (hfit : Fits C g cap Tree.empty ts) (t : Token)
+    (ht : t ∈ ts) :
+    (∃ u ∈ (gatherAll C g cap Tree.empty ts).unc, u.core = t.core) ↔ (t.valid C = true ∧ ¬ InTree C g ts t) := by
+  have I := history_full (g := g) (cap := cap) ts hfit hinj
+  constructor
+  · rintro ⟨u, hu, hc⟩
+    obtain ⟨_, hv, hg, hp⟩ := I.uncOk u hu
+    refine ⟨by rw [← valid_of_core C hc]; exact hv, fun hin => ?_⟩
+    cases hin with
+    | root _ _ _ hp0 => exact hg (prev_of_core hc ▸ hp0)
+    | child _ p _ _ hpin hid =>
+      have := inv_complete I hpin
+      rw [hid, ← prev_of_core hc, hp] at this
+      cases this
+  · rintro ⟨hv, hnot⟩
+    rcases I.kept trivial t ht hv with k | k | ⟨r, hr, _⟩
+    · exfalso
+      obtain ⟨e, he, hid⟩ := (hasId_iff C _ _).mp k
+      exact hnot ((I.sound e he).of_core (off_core_of_id I trivial (I.sound e he).off (Off.self ht) hid))
+    · exact k
+    · cases hr
+
 /-- Order independence: two arrival orders of the same tokens (neither exceeding the waiting area) end with the
     same tokens in the tree. -/
 theorem order_independent (ts us : List Token) (hp : ts.Perm us) (hinj : HashInj C ts)
@@ -291,6 +315,26 @@ theorem unserialize_error_iff (tr : Tree) (s : Bytes) :
     (unserializePublic C g cap tr s).2 = none ↔ (parseChunks C.sigLen s).2 = false := by
   unfold unserializePublic
   cases h : (parseChunks C.sigLen s).2 <;> simp [h]
+
+/-! ### the constants the source has today (regenerated on every run by tools/gen_c16.py) -/
+
+/-- the chunk size used by unserialize_public equals the width of the two hashes Token.unserialize reads -/
+theorem wire_layout_consistent : Gen.chunkBase = Gen.prevLen + Gen.chashLen := gen_layout
+
+/-- a fresh tree (constructor default `unchained_max_size`) never exceeds its waiting area on a history of at most
+    that many tokens, so `elements_iff` / `order_independent` apply to all orders of such a history; the waiting
+    area is bounded by the same number -/
+theorem default_cap_fits (ts : List Token) (h : ts.length ≤ defaultCap) :
+    Fits C g defaultCap Tree.empty ts ∧ (gatherAll C g defaultCap Tree.empty ts).unc.length ≤ defaultCap :=
+  ⟨fits_of_small ts h, waiting_bounded ts⟩
+
+/-- with the default `maxdepth`, `verify` accepts every element of a tree that has at most that many elements -/
+theorem verify_default_complete (tr : Tree) (hc : Chained C g tr.els) (t : Token) (ht : t ∈ tr.els)
+    (hd : (tr.els.length : Int) ≤ defaultMaxDepth) : verify C g tr t defaultMaxDepth = true :=
+  verify_complete tr hc t ht _ hd
+
+/-- the defaults are usable: a positive depth, a non-empty waiting area -/
+theorem defaults_positive : 0 < defaultMaxDepth ∧ 0 < defaultCap := by decide
 
 /-! ### non-vacuity: a toy scheme, a fork that arrives before its parent, a forged and a dangling token -/
 
